@@ -14,12 +14,12 @@ CLAIMED = {
    technique="Coq proof (induction over datagram/ack lists, lia over div/mod; certified exhaustive computation for the CRC distance) + model/implementation differential run",
    design="DESIGN.md §5 C16"),
  "C20": dict(
-   text="Coq invariant proved by induction over ALL sequences of PacketSender operations (send, emit with any flush id, acknowledge with any id, fragment acks): total_size = queued bytes + window bytes, zero when both are empty, the release loop never leaves the window. HalfConnection::send_buffer_size() is that counter. Model tied to the code by the pair/tx/hostile streams (counter compared after every operation, debug+release).",
+   text="Coq invariant proved by induction over ALL sequences of PacketSender operations (send, emit with any flush id, acknowledge with any id, fragment acks): total_size = queued bytes + window bytes, zero when both are empty, the release loop never leaves the window. HalfConnection::send_buffer_size() is that counter, and the same is proved for the HalfConnection itself over ALL sequences of send/receive/step/flush/frame operations (C20_half_connection_exact). Model tied to the code by the pair/tx/hostile streams (counter compared after every operation, debug+release).",
    note=TRUST,
    technique="Coq proof (invariant by induction over operation lists) + differential run",
    design="DESIGN.md §5 C20"),
  "C06": dict(
-   text="Coq invariants by induction over ALL operation sequences: receiver allocation counter = sum of per-slot allocations <= limit rounded to a fragment for every (hostile) datagram / receive / resync stream; sender: fragment-rounded outstanding bytes <= peer limit and <= window-size packets outstanding for every send/ack history. Tied to the code by hostile/pair/tx streams comparing both counters, window spans and the ack-queue length after every operation.",
+   text="Coq invariants by induction over ALL operation sequences: receiver allocation counter = sum of per-slot allocations <= limit rounded to a fragment for every (hostile) datagram / receive / resync stream; sender: fragment-rounded outstanding bytes <= peer limit and <= window-size packets outstanding for every send/ack history; both lifted to the HalfConnection over ALL sequences of send/receive/step/flush/frame operations (the receiver inside a half-connection provably only performs the receiver's own operations: hc_rcv_projection). Tied to the code by hostile/pair/tx streams comparing both counters, window spans and the ack-queue length after every operation.",
    note=TRUST + " Real heap bytes (allocator overhead) are not modelled; the bound is on the library's own accounting, which the model proves equal to the sum of buffer capacities.",
    technique="Coq proof (invariant by induction over operation lists) + differential run",
    design="DESIGN.md §5 C06"),
